@@ -81,7 +81,7 @@ Lemma decode_prefix_det f :
   wf_fmt f -> forall bs v r, decode f bs = Ok (v, r) ->
   exists pre, bs = pre ++ r /\ (delim f -> forall r', decode f (pre ++ r') = Ok (v, r')).
 Proof.
-  induction f as [n|n c|n|lo hi|f1 IH1 f2 IH2|ll f1 IH1|f1 IH1|f1 IH1|n sel IH];
+  induction f as [n|n c|n|lo hi|f1 IH1 f2 IH2|ll f1 IH1|f1 IH1|f1 IH1|n sel IH|p f1 IH1];
     intros W bs v r H; cbn [decode] in H.
   - bind_in H as a1 r1 E. injection H as <- <-. apply take_ok in E. destruct E as [-> [L _]].
     exists a1. split; [reflexivity|]. intros _ r'. cbn [decode]. rewrite <- L, take_app. reflexivity.
@@ -122,6 +122,9 @@ Proof.
     exists (a1 ++ p). split; [apply app_assoc|].
     intros D r'. cbn [decode]. rewrite <- app_assoc, <- L, take_app. cbn [bind].
     rewrite (K (D _)). reflexivity.
+  - cbn [wf_fmt] in W. bind_in H as a1 r1 E. destruct (p a1) eqn:Ep; [|discriminate]. injection H as <- <-.
+    destruct (IH1 W _ _ _ E) as [pre [-> K]]. exists pre. split; [reflexivity|].
+    intros D r'. cbn [decode]. cbn [delim] in D. rewrite (K D). cbn [bind]. rewrite Ep. reflexivity.
 Qed.
 
 Lemma decode_prefix f : wf_fmt f -> forall bs v r, decode f bs = Ok (v, r) -> exists pre, bs = pre ++ r.
@@ -139,7 +142,7 @@ Qed.
 Lemma decode_progress f :
   wf_fmt f -> nonempty f = true -> forall bs v r, decode f bs = Ok (v, r) -> zlen r < zlen bs.
 Proof.
-  induction f as [n|n c|n|lo hi|f1 IH1 f2 IH2|ll f1 IH1|f1 IH1|f1 IH1|n sel IH];
+  induction f as [n|n c|n|lo hi|f1 IH1 f2 IH2|ll f1 IH1|f1 IH1|f1 IH1|n sel IH|p f1 IH1];
     intros W N bs v r H; cbn [decode] in H; cbn [nonempty] in N.
   - bind_in H as a1 r1 E. injection H as <- <-. apply take_ok in E. destruct E as [-> [L _]].
     rewrite zlen_app. lia.
@@ -165,12 +168,14 @@ Proof.
     bind_in H as a1 r1 E. bind_in H as a2 r2 E0. injection H as <- <-.
     apply take_ok in E. destruct E as [-> [L _]].
     pose proof (decode_rest_le _ (W _) _ _ _ E0). rewrite zlen_app. lia.
+  - cbn [wf_fmt] in W. bind_in H as a1 r1 E. destruct (p a1); [|discriminate]. injection H as <- <-.
+    apply (IH1 W N _ _ _ E).
 Qed.
 
 (* ---- encode never yields [] for a nonempty format ------------------------------ *)
 Lemma encode_nonempty f : nonempty f = true -> forall v bs, encode f v = Ok bs -> 0 < zlen bs.
 Proof.
-  induction f as [n|n c|n|lo hi|f1 IH1 f2 IH2|ll f1 IH1|f1 IH1|f1 IH1|n sel IH];
+  induction f as [n|n c|n|lo hi|f1 IH1 f2 IH2|ll f1 IH1|f1 IH1|f1 IH1|n sel IH|p f1 IH1];
     intros N v bs H; cbn [encode] in H; cbn [nonempty] in N.
   - destruct v; try discriminate. apply w_add_ok in H. destruct H as [[Hn Hx] ->].
     cbn [app]. rewrite zlen_be_bytes; lia.
@@ -194,6 +199,7 @@ Proof.
   - destruct v; try discriminate. bind1_in H as x1 E. bind1_in H as x2 E0. injection H as <-.
     apply w_add_ok in E. destruct E as [[Hn _] ->]. cbn [app].
     rewrite zlen_app, zlen_be_bytes by lia. pose proof (zlen_nonneg x2). lia.
+  - destruct (p v); [|discriminate]. apply (IH1 N _ _ H).
 Qed.
 
 (* ---- 2. decode (encode v) = v ------------------------------------------------------ *)
@@ -225,7 +231,7 @@ Lemma decode_encode_gen f :
   wf_fmt f -> forall v bs, encode f v = Ok bs ->
   decode f bs = Ok (v, []) /\ (delim f -> forall r, decode f (bs ++ r) = Ok (v, r)).
 Proof.
-  induction f as [n|n c|n|lo hi|f1 IH1 f2 IH2|ll f1 IH1|f1 IH1|f1 IH1|n sel IH];
+  induction f as [n|n c|n|lo hi|f1 IH1 f2 IH2|ll f1 IH1|f1 IH1|f1 IH1|n sel IH|p f1 IH1];
     intros W v bs H; cbn [encode] in H.
   - destruct v; try discriminate. apply w_add_ok in H. destruct H as [[Hn Hx] ->]. cbn [app].
     assert (forall r, decode (FU n) (be_bytes (Z.to_nat n) x ++ r) = Ok (VInt x, r)) as K.
@@ -286,6 +292,10 @@ Proof.
     split.
     + rewrite <- (app_nil_r (_ ++ x2)). apply G. rewrite app_nil_r. exact K.
     + intros D r. apply G. apply K'. apply D.
+  - cbn [wf_fmt] in W. destruct (p v) eqn:Ep; [|discriminate]. destruct (IH1 W _ _ H) as [K K'].
+    split.
+    + cbn [decode]. rewrite K. cbn [bind]. rewrite Ep. reflexivity.
+    + intros D r. cbn [decode]. cbn [delim] in D. rewrite (K' D). cbn [bind]. rewrite Ep. reflexivity.
 Qed.
 
 (* ---- 3. encode (decode bs) = bs ---------------------------------------------------- *)
@@ -312,7 +322,7 @@ Lemma encode_decode_gen f :
   wf_fmt f -> forall bs v r, bytes bs -> decode f bs = Ok (v, r) ->
   exists pre, bs = pre ++ r /\ encode f v = Ok pre.
 Proof.
-  induction f as [n|n c|n|lo hi|f1 IH1 f2 IH2|ll f1 IH1|f1 IH1|f1 IH1|n sel IH];
+  induction f as [n|n c|n|lo hi|f1 IH1 f2 IH2|ll f1 IH1|f1 IH1|f1 IH1|n sel IH|p f1 IH1];
     intros W bs v r B H; cbn [decode] in H.
   - bind_in H as a1 r1 E. injection H as <- <-. apply take_ok in E. destruct E as [-> [L Hn]].
     apply bytes_app in B. destruct B as [Bl _].
@@ -376,6 +386,8 @@ Proof.
     { apply w_add_ok. split; [lia|]. cbn [app]. replace (Z.to_nat n) with (length a1) by lia.
       symmetry. apply be_bytes_be_val. exact Bl. }
     rewrite Wa. cbn [bind]. rewrite K. reflexivity.
+  - cbn [wf_fmt] in W. bind_in H as a1 r1 E. destruct (p a1) eqn:Ep; [|discriminate]. injection H as <- <-.
+    destruct (IH1 W _ _ _ B E) as [pre [EQ K]]. exists pre. split; [exact EQ|]. cbn [encode]. rewrite Ep. exact K.
 Qed.
 
 (* ---- 4. the only failure of decode is DecodeError ----------------------------------- *)
@@ -399,7 +411,7 @@ Qed.
 
 Lemma decode_err f : wf_fmt f -> forall bs e, decode f bs = Err e -> e = DecodeError.
 Proof.
-  induction f as [n|n c|n|lo hi|f1 IH1 f2 IH2|ll f1 IH1|f1 IH1|f1 IH1|n sel IH];
+  induction f as [n|n c|n|lo hi|f1 IH1 f2 IH2|ll f1 IH1|f1 IH1|f1 IH1|n sel IH|p f1 IH1];
     intros W bs e H; cbn [decode] in H.
   - destruct (take n bs) as [[a r]|e0] eqn:E; cbn [bind] in H; [discriminate|].
     injection H as <-. eapply take_err; eauto.
@@ -432,6 +444,9 @@ Proof.
     + destruct (decode (sel (be_val a)) r) as [[v r2]|e1] eqn:E0; cbn [bind] in H; [discriminate|].
       injection H as <-. eapply IH; eauto.
     + injection H as <-. eapply take_err; eauto.
+  - cbn [wf_fmt] in W. destruct (decode f1 bs) as [[v r]|e0] eqn:E; cbn [bind] in H.
+    + destruct (p v); [discriminate|]. congruence.
+    + injection H as <-. eapply IH1; eauto.
 Qed.
 
 (* ---- 5. strictness ------------------------------------------------------------------- *)
@@ -503,7 +518,7 @@ Qed.
 (* ---- 6. "fits" ---------------------------------------------------------------------- *)
 Lemma encode_size f : forall v bs, encode f v = Ok bs -> zlen bs = vsize f v.
 Proof.
-  induction f as [n|n c|n|lo hi|f1 IH1 f2 IH2|ll f1 IH1|f1 IH1|f1 IH1|n sel IH];
+  induction f as [n|n c|n|lo hi|f1 IH1 f2 IH2|ll f1 IH1|f1 IH1|f1 IH1|n sel IH|p f1 IH1];
     intros v bs H; cbn [encode] in H.
   - destruct v; try discriminate. apply w_add_ok in H. destruct H as [[Hn Hx] ->].
     cbn [app vsize]. apply zlen_be_bytes. lia.
@@ -527,12 +542,13 @@ Proof.
   - destruct v; try discriminate. bind1_in H as x1 E. bind1_in H as x2 E0. injection H as <-.
     apply w_add_ok in E. destruct E as [[Hn _] ->]. cbn [app vsize].
     rewrite zlen_app, zlen_be_bytes by lia. rewrite (IH _ _ _ E0). reflexivity.
+  - destruct (p v); [|discriminate]. cbn [vsize]. apply IH1. exact H.
 Qed.
 
 (* encode succeeds exactly on the values whose every field fits *)
 Lemma encode_ok_iff_wf_val f : forall v, (exists bs, encode f v = Ok bs) <-> wf_val f v.
 Proof.
-  induction f as [n|n c|n|lo hi|f1 IH1 f2 IH2|ll f1 IH1|f1 IH1|f1 IH1|n sel IH]; intros v.
+  induction f as [n|n c|n|lo hi|f1 IH1 f2 IH2|ll f1 IH1|f1 IH1|f1 IH1|n sel IH|p f1 IH1]; intros v.
   - cbn [encode wf_val]. destruct v; try (split; [intros [bs H]; discriminate|intros []]).
     split.
     + intros [bs H]. apply w_add_ok in H. tauto.
@@ -581,6 +597,9 @@ Proof.
     + intros [Ht H2]. apply IH in H2. destruct H2 as [y Hy].
       assert (w_add [] t n = Ok ([] ++ be_bytes (Z.to_nat n) t)) as Wa by (apply w_add_ok; split; [exact Ht|reflexivity]).
       rewrite Wa. cbn [bind]. rewrite Hy. cbn [bind]. eexists. reflexivity.
+  - cbn [encode wf_val]. destruct (p v) eqn:Ep.
+    + rewrite (IH1 v). split; [intros H; split; [reflexivity|exact H]|intros [_ H]; exact H].
+    + split; [intros [bs H]; discriminate|intros [H _]; discriminate].
 Qed.
 
 (* the failure on a value that does not fit is ValueError/TypeError, never a shortened encoding *)
